@@ -188,6 +188,7 @@ func runC16(r *Report) {
 	if bc := r.need("R-C16-3", "internal/protocol/session/tunnel", "Bridge.Close"); bc != nil {
 		ls := lockSetsOf(bc)
 		niled := map[string]string{}
+		niledCand := map[string]map[string]bool{}
 		Instrs(bc, func(in ssa.Instruction) {
 			st, ok := in.(*ssa.Store)
 			if !ok || !isNil(st.Val) {
@@ -197,15 +198,55 @@ func runC16(r *Report) {
 			if !ok || t != "Bridge" {
 				return
 			}
+			cur := map[string]bool{}
 			for l, m := range ls.HeldAll(in) {
 				if m == "W" {
 					if i := strings.LastIndex(l, "."); i >= 0 {
 						l = l[i+1:]
 					}
-					niled[fld] = l
+					cur[l] = true
 				}
 			}
+			// the guarding lock is one that is held at every nil-store of the field
+			if prev, seen := niledCand[fld]; seen {
+				for l := range prev {
+					if !cur[l] {
+						delete(prev, l)
+					}
+				}
+			} else {
+				niledCand[fld] = cur
+			}
 		})
+		for fld, cands := range niledCand {
+			var names []string
+			for l := range cands {
+				names = append(names, l)
+			}
+			sort.Strings(names)
+			switch len(names) {
+			case 0:
+				continue
+			case 1:
+				niled[fld] = names[0]
+				continue
+			}
+			// several locks are held around every nil-store (a nested teardown section): the guarding one is
+			// the lock held at most of the field's other accesses
+			best, bn := names[0], -1
+			for _, l := range names {
+				n := 0
+				for _, fa := range r.P.FieldAccesses("internal/protocol/session/tunnel", "Bridge", fld) {
+					if lockSetsOf(fa.Fn).Held(fa.In, l) != "" {
+						n++
+					}
+				}
+				if n > bn {
+					best, bn = l, n
+				}
+			}
+			niled[fld] = best
+		}
 		var flds []string
 		for f := range niled {
 			flds = append(flds, f)
